@@ -13,6 +13,11 @@
 (*   A3  amount < 0                      AS  a supplemental row has the    *)
 (*   AP  description contains PAYROLL        same amount (needs the        *)
 (*                                           supplemental source)          *)
+(*   AW  the description rules see starts with APLPAY                      *)
+(* A budget may carry a field transform that strips a leading "APLPAY "    *)
+(* from the description BEFORE rules are matched (b.xform; .rules files    *)
+(* only): rules then see the transformed text, the report keeps the raw    *)
+(* one.  Rule 6 (startswith APLPAY) is therefore dead in such a budget.    *)
 (***************************************************************************)
 EXTENDS Integers, Sequences, FiniteSets, TLC
 
@@ -26,8 +31,10 @@ Resolve(r) == [date |-> Cell(D!DateCells, r.date), desc |-> Cell(D!TextCells, r.
                amt |-> Cell(D!AmtCells, r.amt), loc |-> Cell(D!TextCells, r.loc), extra |-> Cell(D!TextCells, r.extra), shape |-> r.shape]
 Row(date, desc, amt) == [date |-> date, desc |-> desc, cap2 |-> "k", amt |-> amt, loc |-> "loc", extra |-> "k", shape |-> "ok"]
 \* one table per date format; tables mix good rows, a bad row and rows whose sign matters
-TableF1 == << Row("d1", "A", "p1250"), Row("bad30", "A", "p1250"), Row("d2", "Bp", "m3"), Row("d1", "A", "thou"), Row("d2", "pay", "big") >>
-TableF2 == << Row("i1", "A", "p1250"), Row("i2", "Bp", "paren3"), Row("i1", "uni", "zero"), Row("i2", "A", "thou") >>
+TableF1 == << Row("d1", "A", "p1250"), Row("bad30", "A", "p1250"), Row("d2", "Bp", "m3"), Row("d1", "A", "thou"), Row("d2", "pay", "big"),
+              Row("d1", "apA", "p1250"), Row("d2", "apX", "plus7") >>
+TableF2 == << Row("i1", "A", "p1250"), Row("i2", "Bp", "paren3"), Row("i1", "uni", "zero"), Row("i2", "A", "thou"),
+              Row("i2", "apA", "thou"), Row("i1", "apX", "cur5") >>
 TableOf(layout) == IF layout = "L2" THEN TableF2 ELSE TableF1
 
 CfgOf(s) == [fmt |-> IF s.layout = "L2" THEN "f2" ELSE "f1", sign |-> s.sign, mode |-> "desc",
@@ -35,7 +42,8 @@ CfgOf(s) == [fmt |-> IF s.layout = "L2" THEN "f2" ELSE "f1", sign |-> s.sign, mo
 ParseSource(s) == R!Parse([i \in 1..Len(TableOf(s.layout)) |-> Resolve(TableOf(s.layout)[i])], CfgOf(s), s.header)
 
 \* ---- classification ------------------------------------------------------------
-HasAlfa(descid) == descid \in {"A", "nv1", "nv4"}
+HasAlfa(descid) == descid \in {"A", "nv1", "nv4", "apA", "nvp"}
+HasPrefix(descid) == descid \in {"apA", "apX", "nvp", "nvq"}
 HasPayroll(descid) == descid \in {"pay", "nv2"}
 SuppAmounts == {1250, 123456}          \* cents of the rows of the supplemental "orders" source
 At(a) == [k |-> "atom", a |-> a]
@@ -48,22 +56,24 @@ RulesFile(mode, kind) ==
       r3 == Rule(3, At("A3"), "", "", {"refund"}, <<50, 0, 1, 0>>)
       r4 == Rule(4, At("AP"), "Income", "Salary", {"income"}, <<50, 1, 0, 7>>)
       r5 == Rule(5, At("AS"), "", "", {"matched"}, <<50, 0, 1, 0>>)
+      r6 == Rule(6, At("AW"), "Shopping", "Grocery", {}, <<50, 1, 0, 6>>)   \* same subcategory as rule 1: a merchant keeps ONE (category, subcategory) in the report
   IN [globals |-> <<>>, mode |-> mode,
-      rules |-> IF kind = "none" THEN <<>> ELSE IF kind = "csv" THEN <<r1, r2, r4>> ELSE <<r1, r2, r3, r4, r5>>]
+      rules |-> IF kind = "none" THEN <<>> ELSE IF kind = "csv" THEN <<r1, r2, r4>> ELSE <<r6, r1, r2, r3, r4, r5>>]
 
-TruthOf(t, suppVisible) ==
-  [a \in {"A1", "A2", "A3", "AP", "AS"} |->
+TruthOf(t, suppVisible, stripped) ==
+  [a \in {"A1", "A2", "A3", "AP", "AS", "AW"} |->
      CASE a = "A1" -> IF HasAlfa(t.desc[1]) THEN "T" ELSE "F"
        [] a = "A2" -> IF t.cents > 100000 THEN "T" ELSE "F"
        [] a = "A3" -> IF t.cents < 0 THEN "T" ELSE "F"
        [] a = "AP" -> IF HasPayroll(t.desc[1]) THEN "T" ELSE "F"
+       [] a = "AW" -> IF HasPrefix(t.desc[1]) /\ ~stripped THEN "T" ELSE "F"
        [] a = "AS" -> IF ~suppVisible THEN "E" ELSE IF t.cents \in SuppAmounts THEN "T" ELSE "F"]
 
 \* one classified transaction
 Classified(b, s, t) ==
   \* rule_mode is a property of .rules files: the legacy CSV loop is always first-match
   LET f == RulesFile(IF b.rules = "csv" THEN "first_match" ELSE b.mode, b.rules)
-      c == E!Classify(f, [v |-> TruthOf(t, b.supp), dyn |-> "val"]) IN
+      c == E!Classify(f, [v |-> TruthOf(t, b.supp, b.xform /\ b.rules = "rules"), dyn |-> "val"]) IN
   [src |-> s.name, desc |-> t.desc[1], date |-> t.date, cents |-> t.cents,
    rule |-> IF c.win = 0 THEN 0 ELSE f.rules[c.win].id, cat |-> c.cat, sub |-> c.sub, tags |-> c.tags]
 
@@ -94,7 +104,8 @@ Report(b) ==
 \* ---- C16: explain / discover are views of the same classification ------------------------
 \* a description and amount typed at the command line (not in any statement) is classified like a transaction would be
 Probes == << [desc |-> "nv1", cents |-> 150000], [desc |-> "nv1", cents |-> 500], [desc |-> "nv2", cents |-> -80000],
-             [desc |-> "nv3", cents |-> -200], [desc |-> "nv4", cents |-> -700], [desc |-> "nv3", cents |-> 1250] >>
+             [desc |-> "nv3", cents |-> -200], [desc |-> "nv4", cents |-> -700], [desc |-> "nv3", cents |-> 1250],
+             [desc |-> "nvp", cents |-> 500], [desc |-> "nvq", cents |-> 900] >>
 Explain(b, p) == Classified(b, [name |-> "cli"], [desc |-> <<p.desc>>, date |-> <<2025, 1, 1>>, cents |-> p.cents])
 \* discover lists exactly the transactions `up` leaves Unknown
 Discover(b) == SelectSeq(AllTxns(b), LAMBDA t : t.cat = "Unknown")
